@@ -313,6 +313,10 @@ class BaseModel(SolverMixin, ModelInterface):
                     f'in period with label: {self.span[t]} (index: {t})'
                 ) from e
 
+        # Initialise the iteration counter in case the loop below never runs
+        # (`max_iter=0`)
+        iteration = 0
+
         for iteration in range(1, max_iter + 1):
             previous_values = current_values.copy()
 
